@@ -2570,7 +2570,7 @@ func randSplit(rng *rand.Rand, n int) []int {
 func runC03(c *core.Ctx) {
 	c.Res.Rule = "catalogue of compiled struct types (required / `optional` scalars of every kind, pointers, repeated and LIST slices, nested lists, slices and maps of structs, embedded and nested structs, optional groups with repeated fields and vice versa, 3 levels of nesting) x generated batches: every nullable site (pointer, zero-able scalar, slice, map) follows, inverts or ignores a per-row (and per-element) run pattern with runs of 1..130 crossing 64-row words; batch sizes 1..200; each batch goes through the nine ingestion paths (whole batch or split into several Write calls; the typed and the reflection buffer additionally with the rows reversed through Swap before reading); predicate: identical (column, value, r, d) sequences per row on every path, Reconstruct(Deconstruct(v)) = v up to nil/empty; correspondence: Deconstruct streams = model shred_rows (= model shred_batch), model asm of the streams = the value. Plus the null-run sweep: single-word patterns with <= 3 runs at every in-word offset through the typed path on optional fields of every null-index kernel, compared with the pattern and with the model's scan. A case = (type, batch, split); non-trivial = at least 2 rows; distinct by type + JSON of the batch."
 	t0 := time.Now()
-	debug.SetGCPercent(400) // the writers allocate their page buffers anew for every case
+	debug.SetGCPercent(400)                    // the writers allocate their page buffers anew for every case
 	if pf := os.Getenv("C03_PROF"); pf != "" { // debugging aid
 		if f, err := os.Create(pf); err == nil {
 			pprof.StartCPUProfile(f)
@@ -2603,6 +2603,7 @@ func runC03(c *core.Ctx) {
 	}
 
 	corpus(c, byName)
+	corpus2(c, byName)
 	if os.Getenv("C03_ONLY") == "" {
 		runKnown(c)
 	}
